@@ -54,6 +54,8 @@ def configs(tier):
                             continue
                         if kwmode == "auto" and sum(ns) > 2:
                             continue
+                        if q and kwmode == "kw" and sum(ns) > 3:
+                            continue
                         spike = fn.startswith("spike_pro") or fn.startswith("spike_dist")
                         if spike and q and sum(ns) > 3:
                             continue
